@@ -176,6 +176,11 @@ func (ex *Exec) ApplySchemas() {
 			if c == nil {
 				c = &Contract{Key: key, Flags: map[string]bool{}, File: sc.File, Line: sc.Line, PkgPath: sc.PkgPath, Synth: true}
 				ex.lib.Contracts[key] = c
+				if sc.Flags["transparent"] {
+					// a schema of body obligations only (call-site assertions): a function that gets its contract from
+					// this schema alone is still treated at call sites as one without contract (inlined when small)
+					c.Flags["inline"] = true
+				}
 			}
 			for _, cl := range sc.Clauses {
 				exempt := false
